@@ -1,5 +1,4 @@
-CONSTANTS Variant = "code"  ALens = {"natural"}  Slim = FALSE
+CONSTANTS Variant = "ShortFormAt128"  ALens = {"n127", "n128", "n129", "n255", "n256", "n257"}  Slim = TRUE
 SPECIFICATION Spec
 INVARIANTS TypeOK SignedPartsSame MandatoryAttrsOnce RefuseOnlyWhenJustified DigestedAsEmitted
-PROPERTIES Terminates
 CHECK_DEADLOCK FALSE
